@@ -1,0 +1,37 @@
+// Verification hooks (compiled only with `--cfg resvg_verif`). Add-only; no behaviour change.
+
+//! Trace log and wrappers used by the external verification harness.
+
+use std::cell::RefCell;
+
+thread_local! {
+    static TRACE: RefCell<Option<Vec<String>>> = const { RefCell::new(None) };
+}
+
+/// Starts recording trace lines on this thread.
+pub fn trace_start() {
+    TRACE.with(|t| *t.borrow_mut() = Some(Vec::new()));
+}
+
+/// Stops recording and returns the recorded lines.
+pub fn trace_take() -> Vec<String> {
+    TRACE.with(|t| t.borrow_mut().take().unwrap_or_default())
+}
+
+pub(crate) fn log<F: FnOnce() -> String>(f: F) {
+    TRACE.with(|t| {
+        if let Some(v) = t.borrow_mut().as_mut() {
+            v.push(f());
+        }
+    });
+}
+
+/// `geom::fit_to_rect`.
+pub fn fit_to_rect(
+    r: tiny_skia::IntRect,
+    bounds: tiny_skia::IntRect,
+) -> Option<tiny_skia::IntRect> {
+    crate::geom::fit_to_rect(r, bounds)
+}
+
+pub use crate::filter::verif as filter;
